@@ -81,6 +81,16 @@ func (rw *Rewriter) expr(e Expr) Expr {
 		return Read{P: rw.site(x.P, "builtin-arg")}
 	case Input:
 		return Input{Prompt: rw.site(x.Prompt, "builtin-arg")}
+	case App:
+		o := App{}
+		for _, c := range x.Calls {
+			args := make([]Expr, len(c.Args))
+			for i, a := range c.Args {
+				args[i] = rw.expr(a)
+			}
+			o.Calls = append(o.Calls, AppOne{Name: c.Name, Literal: c.Literal, Raw: c.Raw, Args: args})
+		}
+		return o
 	}
 	panic("rewrite: unknown expression")
 }
